@@ -1,4 +1,51 @@
-/* White-box unit for alg/sha256.c (C03): exposes the dispatch variable of SHA256_Transform. */
+/* White-box unit for alg/sha256.c (C03): exposes the dispatch variable of SHA256_Transform.
+ * With -DHC_BLACKBOX (notes/blackbox.md) sha256.c is a separate unit: the path is what the public cpusupport_*
+ * functions say about this build on this host (the self-test is not visible), nothing can be reset or pinned,
+ * and the transform on an arbitrary chaining value goes through the public SHA256_CTX + SHA256_Update. */
+#ifdef HC_BLACKBOX
+#include <string.h>
+#include "cpusupport.h"
+#include "sha256.h"
+#include "h_cpu.h"
+
+const char *
+hcpu_sha_path(void)
+{
+
+#if defined(CPUSUPPORT_X86_SHANI) && defined(CPUSUPPORT_X86_SSSE3)
+	if (cpusupport_x86_shani() && cpusupport_x86_ssse3())
+		return ("shani");
+#endif
+#if defined(CPUSUPPORT_X86_SSE2)
+	if (cpusupport_x86_sse2())
+		return ("sse2");
+#endif
+	return ("software");
+}
+
+void
+hcpu_sha_reset(void)
+{
+}
+
+void
+hcpu_sha_force(void)
+{
+}
+
+void
+hcpu_sha_transform(uint32_t state[8], const uint8_t block[64], uint32_t W[64])
+{
+	SHA256_CTX ctx;
+
+	/* one whole block into an empty context whose chaining value is `state`: exactly one transform */
+	(void)W;
+	SHA256_Init(&ctx);
+	memcpy(ctx.state, state, sizeof(ctx.state));
+	SHA256_Update(&ctx, block, 64);
+	memcpy(state, ctx.state, sizeof(ctx.state));
+}
+#else
 #include "sha256.c"
 #include "h_cpu.h"
 
@@ -59,3 +106,4 @@ hcpu_sha_transform(uint32_t state[8], const uint8_t block[64], uint32_t W[64])
 
 	SHA256_Transform(state, block, W, S);
 }
+#endif /* !HC_BLACKBOX */
